@@ -102,6 +102,8 @@ def run(chk, repo):
     o2(chk, repo)
     o3(chk, repo)
     o4(chk, repo)
+    o4_flag(chk, repo)
+    o4_early(chk, repo)
     swallow(chk, repo)
     r243(chk, repo)
 
@@ -334,6 +336,89 @@ def o4(chk, repo):
         chk.ob("R24.2", sym, f"`raise {stored}` reachable after cancel",
                bool(raises), h.tag, "the stored CancelledError is what "
                "finally leaves the task")
+
+
+def o4_flag(chk, repo):
+    """the stop flag is a one-way signal: the parent raises it before the
+    child exists and only ever lowers it afterwards; the child never
+    writes it"""
+    ci = repo.cls(EC + "ProcessSyncGroup")
+    stores = []
+    for c in repo.subclasses(ci.qualname) + [ci]:
+        for mname, f in c.methods.items():
+            for st in ast.walk(f):
+                if isinstance(st, (ast.Assign, ast.AugAssign)):
+                    tg = st.targets if isinstance(st, ast.Assign) \
+                        else [st.target]
+                    if any(unparse(t).endswith("runningValue.value")
+                           for t in tg):
+                        stores.append((c, mname, f, st))
+    seen = set()
+    stores = [x for x in stores if id(x[3]) not in seen
+              and not seen.add(id(x[3]))]
+    chk.floor("R24.1", "stores to the stop flag", len(stores), 2)
+    for c, mname, f, st in stores:
+        sym = c.qualname + "." + mname
+        v = st.value
+        val = v.value if isinstance(v, ast.Constant) else None
+        if mname == "start":
+            cfg = CFG(f)
+            sn = cfg.nodes_containing(st)
+            ps = [n for n in cfg.nodes if n.expr is not None and find(
+                "self.process.start()", n.expr)]
+            ok = val is True and bool(ps) and bool(sn) and all(
+                cfg.dominates(sn[0], p) for p in ps)
+            why = "raised by the parent before the child is started"
+        elif mname == "wait_for_process":
+            ok = val is False
+            why = "lowered by the parent on cancellation"
+        else:
+            ok = False
+            why = (f"`{unparse(st)}` in {mname}: a second writer of the "
+                   f"stop flag - if the parent is cancelled before the "
+                   f"child gets here, the child raises the flag again "
+                   f"after the parent lowered it, runs forever, and the "
+                   f"cancelled task never ends")
+        chk.ob("R24.1", sym, f"O4: `{unparse(st)}` keeps the stop flag a "
+               f"one-way signal", ok, st, why)
+    st_ = repo.func(EC + "ProcessSyncGroup.start")
+    ok = any(m == "start" and isinstance(s_.value, ast.Constant)
+             and s_.value.value is True for _, m, _, s_ in stores)
+    chk.ob("R24.1", EC + "ProcessSyncGroup.start", "O4: the flag is raised "
+           "by the parent in start()", ok, st_, "otherwise a cancellation "
+           "that arrives before the child is up is lost")
+
+
+def o4_early(chk, repo):
+    """R24.4: a task that is cancelled before its first step never runs a
+    line of its coroutine (asyncio throws the CancelledError into a
+    coroutine that has not started; its try/except does not exist yet).
+    An obligation acquired *before* the task is created is therefore only
+    covered if something outside the coroutine releases it as well"""
+    chk.doc("R24.4", "an obligation acquired before the task exists is "
+                     "released even if the task is cancelled before its "
+                     "first step")
+    sym = EC + "ProcessSyncGroup.start"
+    f = repo.func(sym)
+    cfg = CFG(f)
+    ps = [n for n in cfg.nodes if n.expr is not None and find(
+        "self.process.start()", n.expr)]
+    ts = [n for n in cfg.nodes if n.expr is not None and (
+        find("ensure_future(self.wait_for_process())", n.expr) or find(
+            "create_task(self.wait_for_process())", n.expr))]
+    need(ps and ts, f"{sym}: process start / task creation not found")
+    before = all(cfg.dominates(p, t) and p is not t for p in ps for t in ts)
+    cb = [c for c in calls_in(f) if isinstance(c.func, ast.Attribute)
+          and c.func.attr == "add_done_callback"]
+    ok = (not before) or bool(cb)
+    chk.ob("R24.4", sym, "O4: the child is told to stop also when the task "
+           "is cancelled before its first step", ok, ts[0].stmt,
+           "a done-callback on the task lowers the flag" if cb else
+           "the child process is started before the task exists, and the "
+           "only code that lowers the stop flag is the CancelledError "
+           "handler inside wait_for_process(): a cancel() that arrives "
+           "before the event loop has run the task once ends the task "
+           "without ever entering that handler")
 
 
 def guarded_by_none(stmt, var):
